@@ -786,7 +786,8 @@ where
             }
             Instruction::MStructSet(n) => {
                 let n: usize = n.into();
-                let mut field_name_value_pairs = Vec::with_capacity(n);
+                // `n` comes from the bytecode: do not pre-allocate for it.
+                let mut field_name_value_pairs = Vec::new();
 
                 for _ in 0..n {
                     let field_val = self.ipop_value()?;
